@@ -366,15 +366,25 @@ def _real_q(kind, f):
 
 
 class Unbound:
-    """a name that is not in scope on the current path (e.g. a local declared after an early return)"""
+    """a name that is not in scope on the current path (e.g. a local declared after an early return, or a witness
+    local seen from a call site). It absorbs every operation; using it where a value is needed is an error."""
 
     def __init__(self, name):
         object.__setattr__(self, '_name', name)
 
-    def _fail(self, *a, **k):
-        raise NameError('spec name %r is not bound on this path' % self._name)
+    def _absorb(self, *a, **k):
+        return self
 
-    __getattr__ = __getitem__ = __call__ = __add__ = __eq__ = __lt__ = __le__ = __gt__ = __ge__ = _fail
+    def __getattr__(self, nm):
+        if nm.startswith('__'):
+            raise AttributeError(nm)
+        return self
+
+    __getitem__ = __call__ = __add__ = __radd__ = __sub__ = __rsub__ = __mul__ = __rmul__ = __truediv__ = _absorb
+    __rtruediv__ = __neg__ = __eq__ = __ne__ = __lt__ = __le__ = __gt__ = __ge__ = _absorb
+
+    def __bool__(self):
+        raise NameError('spec name %r is not bound on this path' % self._name)
 
     def __hash__(self):
         return id(self)
@@ -387,7 +397,9 @@ def _when(cond, thunk):
         return z3.BoolVal(True)
     try:
         body = thunk()
-    except NameError:
+        if isinstance(body, Unbound) or not (z3.is_expr(body) or isinstance(body, bool)):
+            raise NameError('unbound')
+    except (NameError, z3.Z3Exception, TypeError, AttributeError):
         body = z3.BoolVal(False)
     return z3.Implies(cond, body)
 
@@ -399,6 +411,8 @@ def _exists_w(f, *witness):
     """existential with an explicit witness: proved by instantiating the witness (verify mode), assumed as a
     plain existential at call sites"""
     if MODE[0] == 'prove':
+        if any(isinstance(w, Unbound) for w in witness):
+            raise NameError('witness is not bound on this path')
         return f(*witness)
     _qcount[0] += 1
     names = f.__code__.co_varnames[:f.__code__.co_argcount]
@@ -406,7 +420,7 @@ def _exists_w(f, *witness):
     for nm, w in zip(names, witness):
         if z3.is_expr(w):
             srt = w.sort()
-        elif nm[0] in 'AB':
+        elif nm[0] in 'ABZ':
             srt = z3.ArraySort(z3.IntSort(), z3.RealSort())     # convention: A.. = real sequence
         elif nm in ('pos', 'i', 'j', 'k', 'n', 'm'):
             srt = z3.IntSort()
